@@ -82,6 +82,9 @@ def proof_status(pid):
 
 
 # ---------------------------------------------------------------------------------------------------
+CHUNK_TIMEOUT = int(os.environ.get('VERIF_CHUNK_TIMEOUT', '1200'))
+
+
 def case_hash(case):
     return hashlib.sha1(json.dumps(jsonable(case), sort_keys=True).encode()).hexdigest()[:16]
 
@@ -91,38 +94,88 @@ def impure(prog, ri):
     return [dict(index=i, op=list(op), what=r) for i, (op, r) in enumerate(zip(prog, ri)) if isinstance(r, str) and r.startswith('IMPURE-QUERY')]
 
 
+def full_program(P, case):
+    """the property's program, with the graph's EARLIER LIFE spliced in after the creation of register 0 when the case
+    has one (a few interactions, some reads, then clear()): a cleared graph is a fresh graph, so the property's own
+    program and oracle are unaffected -- unless something of the earlier life survives.  Returns the full program and
+    the slice of it the oracle does not see."""
+    p = P.program(case)
+    pre = case.get('prelife')
+    if pre and p and p[0][0] == 'new' and p[0][1] == 0:
+        pre = [tuple(tuple(x) if isinstance(x, list) else x for x in o) for o in pre]
+        return p[:1] + pre + p[1:], (1, 1 + len(pre))
+    return p, None
+
+
+def strip(seq, cut):
+    return seq if cut is None else seq[:cut[0]] + seq[cut[1]:]
+
+
+PRELIFE_OBS = {'add', 'ids', 'has', 'clear', 'stream', 'nodes'}
+
+
+def add_prelife(rnd, case):
+    """with probability 0.15: the graph lived before (same object): adds at instants the case itself does not use,
+    reads of ids / presence / stream (so that anything cached is cached), then clear()"""
+    if rnd.random() >= 0.15 or 'hist' not in case:
+        return case
+    base = rnd.choice([40, 200, -60])
+    pre = []
+    for _ in range(rnd.randint(1, 4)):
+        u, v = rnd.randint(1, 3), rnd.randint(1, 3)
+        if u == v:
+            v = u % 3 + 1
+        t = base + rnd.randint(0, 3)
+        pre.append(('add', 0, u, v, t, rnd.choice([None, None, t + 2])))
+    pre.sort(key=lambda o: o[4])
+    pre += [('ids', 0), ('has', 0, 1, 2, base + 1), ('stream', 0), ('nodes', 0, None), ('clear', 0, 'clear')]
+    if rnd.random() < 0.4:
+        pre.append(('ids', 0))      # reading right after the clear would refresh anything cached: not always
+    case = dict(case)
+    case['prelife'] = pre
+    return case
+
+
 def eval_chunk(args):
     """worker: run impl + model + oracle on a chunk of cases"""
     mod_name, cases = args
     import importlib
     P = importlib.import_module(mod_name).PROP
-    progs = [P.program(c) for c in cases]
+    fulls = [full_program(P, c) for c in cases]
     try:
-        rms = run_model(progs)
+        # cases the model does not cover ('nomodel': e.g. arguments whose meaning no property fixes) run on the
+        # implementation only and are judged by the oracle alone
+        rms = run_model([([] if c.get('nomodel') else fp) for c, (fp, _) in zip(cases, fulls)])
     except Exception as x:
         return dict(error='model run failed: %r' % (x,), results=[])
     res = []
-    for c, p, rm in zip(cases, progs, rms):
-        ri = run_impl(p, family=c.get('family', 'int'), functional=c.get('functional', False))
+    for c, (pf, cut), rmf in zip(cases, fulls, rms):
+        rif = run_impl(pf, family=c.get('family', 'int'), functional=c.get('functional', False))
+        if c.get('nomodel'):
+            rmf = [None] * len(pf)
+        p, ri, rm = strip(pf, cut), strip(rif, cut), strip(rmf, cut)
         fails = P.oracle(c, p, ri) + impure(p, ri)
         for f in fails:
             i = f.get('index')
-            f['impl_eq_model'] = (i is not None and public(ri[i]) == rm[i])
-        dis = diff_results(p, ri, rm, P.obs, getattr(P, 'out_of_scope', None))
+            f['impl_eq_model'] = (i is not None and not c.get('nomodel') and public(ri[i]) == rm[i])
+        dis = [] if c.get('nomodel') else diff_results(p, ri, rm, P.obs, getattr(P, 'out_of_scope', None))
+        if cut is not None and not c.get('nomodel'):
+            dis += diff_results(pf[cut[0]:cut[1]], rif[cut[0]:cut[1]], rmf[cut[0]:cut[1]], PRELIFE_OBS)
         res.append(dict(fails=fails, dis=[(i, list(op), jsonable(a), jsonable(b)) for i, op, a, b in dis[:3]], ndis=len(dis),
-                        nt=bool(P.nontrivial(c, p, ri)), cls=P.classify(c, p, ri), nops=len(p)))
+                        nt=bool(P.nontrivial(c, p, ri)), cls=dict(P.classify(c, p, ri), **({'earlier_life_then_clear': 1} if cut else {})), nops=len(pf)))
     return dict(error=None, results=res)
 
 
 def eval_one(P, case):
-    p = P.program(case)
-    rm = run_model([p])[0]
-    ri = run_impl(p, family=case.get('family', 'int'), functional=case.get('functional', False))
+    pf, cut = full_program(P, case)
+    rif = run_impl(pf, family=case.get('family', 'int'), functional=case.get('functional', False))
+    rmf = [None] * len(pf) if case.get('nomodel') else run_model([pf])[0]
+    p, ri, rm = strip(pf, cut), strip(rif, cut), strip(rmf, cut)
     fails = P.oracle(case, p, ri) + impure(p, ri)
     for f in fails:
         i = f.get('index')
-        f['impl_eq_model'] = (i is not None and public(ri[i]) == rm[i])
-    dis = diff_results(p, ri, rm, P.obs, getattr(P, 'out_of_scope', None))
+        f['impl_eq_model'] = (i is not None and not case.get('nomodel') and public(ri[i]) == rm[i])
+    dis = [] if case.get('nomodel') else diff_results(p, ri, rm, P.obs, getattr(P, 'out_of_scope', None))
     return p, ri, rm, fails, dis
 
 
@@ -145,7 +198,11 @@ def shrink(P, case, known, budget=400):
     improved = True
     while improved and steps < budget:
         improved = False
-        for cand in P.shrink_candidates(cur):
+        def cands():
+            if cur.get('prelife'):
+                c0 = dict(cur); c0.pop('prelife'); yield c0
+            yield from P.shrink_candidates(cur)
+        for cand in cands():
             steps += 1
             if steps > budget:
                 break
@@ -267,7 +324,7 @@ def run_check(mod_name, tier, seed, replay=None):
         corpus.append(json.load(open(f))['case'])
     exh = list(P.exhaustive_cases(tier))
     n_rand = P.n_random(tier)
-    rand = list(P.random_cases(rnd, n_rand))
+    rand = [add_prelife(rnd, c) for c in P.random_cases(rnd, n_rand)]
     cases = corpus + exh + rand
     extra_scope = False
 
@@ -278,7 +335,17 @@ def run_check(mod_name, tier, seed, replay=None):
         if not model_ok:
             return
         with multiprocessing.Pool(min(16, os.cpu_count() or 4)) as pool:
-            for chunk, out in zip(chunks(cases, 64), pool.imap(eval_chunk, ((mod_name, ch) for ch in chunks(cases, 64)))):
+            results = pool.imap(eval_chunk, ((mod_name, ch) for ch in chunks(cases, 64)))
+            for chunk in chunks(cases, 64):
+                try:
+                    # a chunk of 64 cases takes seconds; a worker that does not answer within CHUNK_TIMEOUT is stuck
+                    # (an operation of the library, or of this harness, that does not terminate on one of these cases)
+                    out = results.next(timeout=CHUNK_TIMEOUT)
+                except multiprocessing.TimeoutError:
+                    pool.terminate()
+                    all_dis.append((chunk[0], [(None, None, 'no answer within %d s for a chunk of %d cases starting with this one: '
+                                                'some operation does not terminate' % (CHUNK_TIMEOUT, len(chunk)), None)]))
+                    break
                 if out['error']:
                     all_dis.append((None, [(None, None, out['error'], None)]))
                     continue
@@ -301,7 +368,7 @@ def run_check(mod_name, tier, seed, replay=None):
     vm = dict(checked=0, mismatches=[])
     if model_ok and cases:
         try:
-            small = sorted((P.program(c) for c in cases[:400]), key=len)[:12]
+            small = sorted((full_program(P, c)[0] for c in cases[:400] if not c.get('nomodel')), key=len)[:12]
             small = [p for p in small if len(p) <= 400]
             if small:
                 vm = vm_crosscheck(pid, small)
@@ -323,7 +390,7 @@ def run_check(mod_name, tier, seed, replay=None):
     elif pst['broken'] or all_dis or not model_ok:
         # proof or correspondence broken: widen the search before giving up on a failing input
         if model_ok and tier == 'quick':
-            wide = list(P.exhaustive_cases('thorough')) + list(P.random_cases(random.Random(seed + 1), 10 * n_rand))
+            wide = list(P.exhaustive_cases('thorough')) + [add_prelife(rnd, c) for c in P.random_cases(random.Random(seed + 1), 10 * n_rand)]
             extra_scope = True
             sweep(wide)
             un_cases = [(c, unexplained(P, f, known)) for c, f in all_fail]
